@@ -324,7 +324,7 @@ class Run:
         if rc != 0:
             raise RuntimeError("vh failed (%d):\n%s" % (rc, out[-4000:]))
         if out.strip():
-            for l in out.strip().split("\n")[-15:]:
+            for l in [l for l in out.strip().split("\n") if "Error: <nil>" not in l][-15:]:
                 self.log("vh: " + l)
         cases = open(os.path.join(self.dir, "cases.txt")).read().split("\n")
         impl = open(os.path.join(self.dir, "impl.txt")).read().split("\n")
@@ -1239,7 +1239,106 @@ def check_C09(run, replay=None):
     return run.finish()
 
 
-CHECKS = {"C09": check_C09, "C12": check_C12, "C15": check_C15, "C19": check_C19, "C13": check_C13, "C03": check_C03, "C04": check_C04, "C05": check_C05, "C06": check_C06, "C07": check_C07, "C08": check_C08, "C11": check_C11, "C16": check_C16, "C17": check_C17}
+# ---- C10 / C02 (Write half): responses ---------------------------------------
+
+def c10_wire_canon(w, json_body):
+    """'<status>,<hex header lines>,<hex body>' -> comparable tuple"""
+    f = (w or "").split(",")
+    if len(f) != 3:
+        return ("?", w)
+    hdr = sorted(bytes.fromhex(f[1]).decode("latin1").split("\n")) if f[1] != "-" else []
+    hdr = [h for h in hdr if h]
+    body = bytes.fromhex(f[2]) if f[2] != "-" else b""
+    if json_body:
+        body = canon_json_bytes(body)
+    else:
+        body = body.hex()
+    return (f[0], tuple(hdr), body)
+
+
+def c10_impl(im, mo=""):
+    kv = parse_kv(im)
+    iv = kv.get("impl", "MISSING")
+    if iv.startswith("Err(") or iv == "Err":
+        return "Err"
+    return kv.get("kind", "-") + ":" + c09_canon(re.sub(r"Raw\(([0-9a-f]*|-)\)", lambda m: "Bytes(%s)" % m.group(1), iv) if False else iv)
+
+
+def check_C10(run, replay=None):
+    proof_ok = run.proof_side()
+    cases, impl, model, meta = run.run_vh(["-cases", replay] if replay else None)
+    heads = {}
+    for c in cases:
+        if c[:2] in ("D ", "J ", "W "):
+            heads.setdefault(c.split(" ", 2)[1], []).append(c)
+    olines = [c for c in cases if c.startswith("O ")]
+
+    def ctx(i):
+        return heads.get(cases[i].split(" ", 2)[1], []) + olines
+    nbad = fam_report_bad_packages(run, meta)
+    keep = [i for i, c in enumerate(cases) if c[:2] in ("V ", "X ") and not impl[i].startswith("SKIP")]
+    kc, ki, km = [], [], []
+    wire_bad = []
+    n_wire = 0
+    for i in keep:
+        c = cases[i]
+        mkv = parse_kv(model[i])
+        ikv = parse_kv(impl[i])
+        mv = mkv.get("model")
+        if mv is None:
+            kc.append(c); ki.append(impl[i]); km.append(model[i])
+            continue
+        canon = lambda x: "Err" if x.startswith("Err") else (x.split(":", 1)[0] + ":" + c09_canon(x.split(":", 1)[1]) if ":" in x else x)
+        if c.startswith("V "):
+            sv = mkv.get("spec", "")
+            # the Write half: the wire response is the documented one
+            json_body = "JSON" in sv.split(":", 1)[0] or b"application/json" in bytes.fromhex((mkv.get("wire", ",-,").split(",")[1] or "").replace("-", "") or "")
+            wi, wm = c10_wire_canon(ikv.get("wire"), json_body), c10_wire_canon(mkv.get("wire"), json_body)
+            n_wire += 1
+            if wi != wm:
+                wire_bad.append((i, wi, wm))
+        else:
+            # an undocumented status: the default response carrying that status, or an error; never another kind
+            m = re.search(r"#exp=(\S+)", c)
+            exp = m.group(1) if m else "err"
+            iv = c10_impl(impl[i])
+            if exp == "err":
+                sv = "Err"
+            else:
+                _, kind, code = exp.split(":")
+                sv = iv if (iv == "Err" or (iv.startswith(kind + ":{I(" + code + ")"))) else "Err-or-" + kind + "(code " + code + ")"
+        kc.append(c)
+        ki.append(impl[i])
+        km.append("model=%s spec=%s" % (canon(mv), canon(sv)))
+    compare(run, kc, ki, km, get_impl=lambda im, mo: (lambda x: "Err" if x == "Err" else x.split(":", 1)[0] + ":" + c09_canon(x.split(":", 1)[1]))(c10_impl(im)),
+            context=lambda j: ctx(keep[j]), nontrivial=lambda c, iv: iv != "Err")
+    for (i, wi, wm) in wire_bad[:3]:
+        run.violation({"property": run.prop, "case": cases[i], "context": ctx(i), "observed_wire": repr(wi), "expected_wire": repr(wm),
+                       "broken": "the response on the wire (status, headers, body) differs from the documented one (model of Write = spec of C02_write_documented)"}, cases[i])
+    pick = [keep[k] for k in sorted({0, len(keep) // 3, len(keep) // 2, len(keep) - 1})] if keep else []
+    run.coverage.update({
+        "rule": "response matrix: packages of 5 operations x 1-3 documented status codes (+ default in half) x {inline, shared component response, "
+                "alias of a component response, component default} x 0-3 headers (10 scalar types, arrays, required/optional, inline or "
+                "components.headers) x body {none, JSON object $ref / inline object / array of objects, raw octet-stream / text}; for every "
+                "response type seeded values are built reflectively, returned by the handler, served by the generated API, recorded on the "
+                "wire and reconstructed by the generated client (V lines); a stub transport replays undocumented status codes "
+                "{100,199,200,201,204,299,301,400,404,418,500,599} x 5 bodies (X lines). Compared: client result kind+value vs sent value vs "
+                "extracted model (write; client_decode); wire status/headers/body vs model write.",
+        "programs": meta.get("packages_ok", 0), "packages_not_built": nbad,
+        "wire_comparisons": n_wire, "wire_mismatches": len(wire_bad),
+        "input_distribution": {k: v for k, v in meta.items() if k != "packages_bad"},
+        "samples": [{"case": cases[i][:300], "impl": impl[i][:400], "model_and_spec": model[i][:400]} for i in pick],
+        "trusted_base": TRUSTED_COMMON + ROUTER_TRUSTED + [
+            "modelled, not verified: the emitted Write method and the client's status switch / ClientResponse (Model/Response.v); strconv.FormatFloat/"
+            "time.Format and their parsers as oracle hypotheses (float_rt, time_rt, num_rt); JSON text printing/parsing is the transport between "
+            "enc and dec (driver glue; canonical JSON comparison)"],
+    })
+    if not proof_ok:
+        run.violation(dict(getattr(run, "coq_failure", {}), input=None), None, note="no-failing-input-found")
+    return run.finish()
+
+
+CHECKS = {"C10": check_C10, "C09": check_C09, "C12": check_C12, "C15": check_C15, "C19": check_C19, "C13": check_C13, "C03": check_C03, "C04": check_C04, "C05": check_C05, "C06": check_C06, "C07": check_C07, "C08": check_C08, "C11": check_C11, "C16": check_C16, "C17": check_C17}
 
 
 def setup():
